@@ -547,7 +547,7 @@ def _group_state(pgid):
     return n, all_sleeping, ticks
 
 
-def run(cmd, cwd, env=None, timeout=600, strace_root=None, cpu_limit=None, stdin=None, ctx=None, block_window=None):
+def run(cmd, cwd, env=None, timeout=600, strace_root=None, cpu_limit=None, stdin=None, ctx=None, block_window=None, nofile=None):
     """Run a child. timeout is a wall-clock *watchdog* (=> inconclusive, never a verdict).
     cpu_limit (seconds) is enforced with RLIMIT_CPU and is load-independent.
     block_window (seconds, opt-in): the child's process group is sampled once a second; if for that many consecutive samples every thread of every
@@ -566,6 +566,8 @@ def run(cmd, cwd, env=None, timeout=600, strace_root=None, cpu_limit=None, stdin
         os.setsid()
         if cpu_limit:
             resource.setrlimit(resource.RLIMIT_CPU, (cpu_limit, cpu_limit + 5))
+        if nofile:
+            resource.setrlimit(resource.RLIMIT_NOFILE, (nofile, nofile))   # a small descriptor table: what the run keeps open at once becomes observable
 
     t = time.time()
     p = subprocess.Popen(full, cwd=cwd, env=env, stdout=subprocess.PIPE, stderr=subprocess.PIPE,
@@ -728,13 +730,13 @@ def parse_strace(path, root):
 
 # --------------------------------------------------------------------------- mockery helpers
 
-def run_mockery(ctx, cwd, args=(), env_extra=None, strace=False, timeout=600, cpu_limit=None, root=None, block_window=None):
+def run_mockery(ctx, cwd, args=(), env_extra=None, strace=False, timeout=600, cpu_limit=None, root=None, block_window=None, nofile=None):
     # every run of the tool is bounded in CPU time (a logical, load-independent measure; an ordinary run needs a few seconds): a run that spins is killed
     # by the kernel and shows up as a negative exit status, which no check takes for success. The wall-clock timeout stays a mere watchdog.
     cpu_limit = cpu_limit or min(200, max(40, timeout // 3))   # well below the wall-clock watchdog, so that a spinning run is decided by the logical measure
     env = scratch_env(env_extra)
     return run([ctx.mockery] + list(args), cwd=cwd, env=env, timeout=timeout,
-               strace_root=(root or cwd) if strace else None, cpu_limit=cpu_limit, ctx=ctx, block_window=block_window)
+               strace_root=(root or cwd) if strace else None, cpu_limit=cpu_limit, ctx=ctx, block_window=block_window, nofile=nofile)
 
 
 def go_vet(cwd, pkgs=("./...",), tags=None, timeout=900):
